@@ -737,3 +737,62 @@ func VH22k_inproc_busy() {
 	verif.Quiesce()
 	verif.Assert(verif.LiveGoroutines() == 0, "C10/inproc/goroutines-left-after-close")
 }
+
+// VH22l_fanout: a broadcasting socket with two peers over a real transport sends one message the caller also holds
+// a reference to. The two connections' sender goroutines work on the same message at the same time: under the
+// happens-before race detector they share no written location; both peers receive the body whole; the caller's
+// reference shows the same header, spare header capacity and body afterwards.
+func VH22l_fanout() {
+	type fo struct{ tx, rx string }
+	fos := []fo{{"pub", "sub"}, {"xpub", "sub"}, {"bus", "bus"}, {"xbus", "bus"}, {"star", "star"}, {"xstar", "star"},
+		{"surveyor", "respondent"}, {"xsurveyor", "respondent"}}
+	f := fos[verif.Choice("pattern", len(fos))]
+	tn := trans[verif.Param("tran", 0)]
+	lab := "C11/fanout/" + tn + "/" + f.tx
+	tx := vp.New(f.tx)
+	rxs := []mangos.Socket{vp.New(f.rx), vp.New(f.rx)}
+	addr, opts := e2eAddr("09")
+	verif.Assert(tx.ListenOptions(addr, opts) == nil, lab+"/listen")
+	for _, r := range rxs {
+		if f.rx == "sub" {
+			r.SetOption(mangos.OptionSubscribe, []byte{})
+		}
+		verif.Assert(r.DialOptions(addr, opts) == nil, lab+"/dial")
+		verif.Quiesce()
+	}
+	bl := verif.Choice("blen", 3)
+	body := verif.Bytes("body", bl)
+	m := mangos.NewMessage(0)
+	m.Body = append(m.Body, body...)
+	switch f.tx {
+	case "xsurveyor":
+		m.Header = append(m.Header, 0x80, 0, 0, 1)
+	case "xstar", "xbus":
+		m.Header = append(m.Header, 0, 0, 0, 0)
+	}
+	m.Clone() // the caller's own reference
+	held := m
+	hcap := append([]byte{}, m.Header[:cap(m.Header)]...)
+	hlen := len(m.Header)
+	verif.Assert(tx.SendMsg(m) == nil, lab+"/send")
+	verif.Quiesce()
+	for _, r := range rxs {
+		got, err, done := recvOne(r)
+		verif.Assert(done && err == nil, lab+"/peer-did-not-receive")
+		if done && err == nil {
+			verif.Assert(verif.BytesEq(got, body), lab+"/body-changed-in-transit")
+		}
+	}
+	verif.Assert(len(held.Body) == bl && verif.BytesEq(held.Body, body), lab+"/held-body-changed")
+	if f.tx[0] == 'x' {
+		verif.Assert(len(held.Header) == hlen, lab+"/held-header-length-changed")
+		verif.Assert(verif.BytesEq(held.Header[:cap(held.Header)][:len(hcap)], hcap), lab+"/bytes-behind-the-held-header-changed")
+	}
+	held.Free()
+	verif.Reach("fanout-checked")
+	tx.Close()
+	for _, r := range rxs {
+		r.Close()
+	}
+	verif.Quiesce()
+}
